@@ -67,4 +67,5 @@ def main():
             out.append({"err": type(e).__name__})
     sys.stdout.write("@@JSON@@" + json.dumps(out) + "\n")
 
-main()
+if __name__ == '__main__':
+    main()
